@@ -27,7 +27,10 @@ def make_certificate(common_names=('alice',), eku=('client',)):
         attrs.append(x509.NameAttribute(NameOID.COMMON_NAME, cn))
     name = x509.Name(attrs)
     b = x509.CertificateBuilder().subject_name(name).issuer_name(name)
-    b = b.public_key(priv.public_key()).serial_number(1000 + len(_CERTS))
+    import hashlib
+    serial = 1000 + int.from_bytes(hashlib.sha256(
+        repr(key).encode()).digest()[:4], 'big')
+    b = b.public_key(priv.public_key()).serial_number(serial)
     b = b.not_valid_before(datetime.datetime(2020, 1, 1))
     b = b.not_valid_after(datetime.datetime(2040, 1, 1))
     if eku is not None:
